@@ -36,11 +36,17 @@ ASSUMPTIONS = [
 ALPHA = "a1-/"
 
 
+# prefixes beyond the exhaustive grid: look like five message levels (the D10 shape), repeat
+# themselves, contain MQTT wildcards, ';' or non-ASCII
+EXTRA_PREFIXES = ["1/2/3/0/4", "1/1/1/1/1", "7/8/1/0/2", "1/2/3/0/4/1/2/3/0/4", "a/b/c/d/e/f", "0/0/0/0/0",
+                  "mysensors-in", "home/ünï", "+/+", "#", "a;b", "1/2/3/0", "2/3/0/4", "/1/2/3/0/4", "1/2/3/0/4/"]
+
+
 def prefixes(maxlen):
     out = [""]
     for n in range(1, maxlen + 1):
         out += ["".join(t) for t in itertools.product(ALPHA, repeat=n)]
-    return out
+    return out + EXTRA_PREFIXES
 
 
 def make_real(flavour, in_prefix, out_prefix, version="2.2", retain=True, pub_raises=False, sub_raises=False):
@@ -140,7 +146,14 @@ def part_recv(res, rng, driver, tier):
                 gws[key] = make_real(flavour, p, "out")
             gw, rec = gws[key]
             rec["jobs"].clear()
-            gw.tasks.transport.recv(topic, payload, qos)
+            try:
+                gw.tasks.transport.recv(topic, payload, qos)
+            except Exception as exc:  # noqa: BLE001
+                rec["jobs"].clear()
+                raised = G.exc_kind(exc)
+                res.oracle_failures.append({"key": {"kind": "mqtt-recv-raised", "exc": raised, "case": name},
+                                            "what": f"in_prefix={p!r}: recv({topic!r}) raised {raised}",
+                                            "replay": {"part": "recv", "prefix": p, "topic": topic, "payload": payload, "qos": qos}})
             if not rec["jobs"]:
                 outs.append(None)
             else:
